@@ -54,8 +54,8 @@ def _job(job):
     except Exception as e:
         out["problems"].append(("exception_base", repr(e)[:150]))
         return out
-    if E.wrapper and E.subsample:
-        return out          # the sub-sample (hence the utilities) legitimately depends on the candidate list
+    # (the sub-sampling wrapper is NOT exempt from representation equivalence: for the same seed it draws the same positions of the
+    #  sorted candidate list whichever way the candidates are addressed - only restriction / permutation change the sub-sample)
     # (1) representation equivalence
     try:
         perm = rng.permutation(unl)
